@@ -98,7 +98,8 @@ class _NativeTimeout(BaseException):
     pass
 
 
-NATIVE_TIMEOUT_S = 2.0
+NATIVE_TIMEOUT_S = 2.0  # processor time of the replay (a busy machine must not turn a replay into a "hang")
+NATIVE_WALL_TIMEOUT_S = 30.0  # wall clock: a replay that blocks (waits for something that never comes)
 
 
 def _native_run_inner(lem, kwargs):
@@ -108,14 +109,18 @@ def _native_run_inner(lem, kwargs):
         raise _NativeTimeout()
 
     old = signal.signal(signal.SIGALRM, _alarm)
-    signal.setitimer(signal.ITIMER_REAL, NATIVE_TIMEOUT_S)
+    old_prof = signal.signal(signal.SIGPROF, _alarm)
+    signal.setitimer(signal.ITIMER_REAL, NATIVE_WALL_TIMEOUT_S)
+    signal.setitimer(signal.ITIMER_PROF, NATIVE_TIMEOUT_S)
     try:
         return _native_run_inner2(lem, kwargs)
     except _NativeTimeout:
-        return ("hang", f"no result within {NATIVE_TIMEOUT_S} s (does not terminate?)")
+        return ("hang", f"no result within {NATIVE_TIMEOUT_S} s of processor time / {NATIVE_WALL_TIMEOUT_S} s (does not terminate?)")
     finally:
+        signal.setitimer(signal.ITIMER_PROF, 0)
         signal.setitimer(signal.ITIMER_REAL, 0)
         signal.signal(signal.SIGALRM, old)
+        signal.signal(signal.SIGPROF, old_prof)
 
 
 def _native_run_inner2(lem, kwargs):
